@@ -13,7 +13,10 @@ import (
 	"encoding/hex"
 	"flag"
 	"fmt"
+	"io"
+	"log"
 	"os"
+	"sort"
 	"strings"
 )
 
@@ -80,6 +83,8 @@ func main() {
 		os.Exit(2)
 	}
 	name, mode := os.Args[1], os.Args[2]
+	// go-diameter prints recovered handler panics through the standard logger
+	log.SetOutput(io.Discard)
 	if name == "dump-tables" {
 		dumpTables(os.Args[2])
 		return
@@ -136,3 +141,8 @@ func safeRun(st *stream, line string, toks []string) (res string) {
 	}()
 	return st.run(line, toks)
 }
+
+func (r *rng) pickStr(xs ...string) string { return xs[r.intn(len(xs))] }
+
+func sortStrings(s []string)                  { sort.Strings(s) }
+func joinStrings(s []string, sep string) string { return strings.Join(s, sep) }
